@@ -280,10 +280,16 @@ func (c *ScriptConn) Read(p []byte) (int, error) {
 	}
 	n := len(p)
 	if c.chunkI < len(c.chunks) {
-		if k := c.chunks[c.chunkI]; k > 0 && k < n {
+		k := c.chunks[c.chunkI]
+		c.chunkI++
+		if k < 0 {
+			// a legal, if discouraged, io.Reader behaviour: no bytes, no error
+			c.log(Op{Kind: OpRead, Asked: len(p)})
+			return 0, nil
+		}
+		if k > 0 && k < n {
 			n = k
 		}
-		c.chunkI++
 	}
 	if n > limit {
 		n = limit
